@@ -839,7 +839,7 @@ func c19(c *Ctx) {
 	}
 
 	// ---------- 5. URL grammar ----------
-	N := 1800
+	N := 4000
 	if c.Thorough {
 		N = 150000
 	}
@@ -856,7 +856,7 @@ func c19(c *Ctx) {
 	}
 
 	// ---------- 6. registries: random histories of registrations and lookups ----------
-	M := 500
+	M := 1500
 	if c.Thorough {
 		M = 40000
 	}
